@@ -192,13 +192,13 @@ package remedies
 //@   modifies mapof(plugin.definedQuotas), gTried, gTryBlocked, gTryLimiter, gTryGrouping, gTryGroup, gTryAllowed, gTryWindow, gTryRatio, now
 //@   on entry do gTried = false
 //@   ensures[allowed-or-rejected] result1 == nil ==> typeis(result0, *actions.NoOpAction) || typeis(result0, *actions.EarlyResponseAction)
-//@   ensures[rejected-with-the-configured-status] result1 == nil && typeis(result0, *actions.EarlyResponseAction) ==> result0.(*actions.EarlyResponseAction).Status == ite(remedyConfig.ResponseStatusCode != 0, remedyConfig.ResponseStatusCode, 429)
+//@   ensures[rejected-with-the-configured-status] result1 == nil && typeis(result0, *actions.EarlyResponseAction) ==> result0.(*actions.EarlyResponseAction).Status == ite(scopedRemedy.Remedy.Config.StrategyBasedThrottling.ResponseStatusCode != 0, scopedRemedy.Remedy.Config.StrategyBasedThrottling.ResponseStatusCode, 429)
 //@   ensures[obeys-the-counter] result1 == nil && gTried ==> (gTryBlocked <==> typeis(result0, *actions.EarlyResponseAction))
-//@   ensures[rejected-only-when-share-used-up] result1 == nil && typeis(result0, *actions.EarlyResponseAction) ==> (gTried && gTryBlocked) || (remedyConfig.GroupQuotaAllocation != nil && !gTried && remedyConfig.GroupQuotaAllocation.DefaultBehavior() == sharedConfig.DefaultQuotaGroupBehaviorBlock)
+//@   ensures[rejected-only-when-share-used-up] result1 == nil && typeis(result0, *actions.EarlyResponseAction) ==> (gTried && gTryBlocked) || (scopedRemedy.Remedy.Config.StrategyBasedThrottling.GroupQuotaAllocation != nil && !gTried && scopedRemedy.Remedy.Config.StrategyBasedThrottling.GroupQuotaAllocation.DefaultBehavior() == sharedConfig.DefaultQuotaGroupBehaviorBlock)
 //@   ensures[own-remedy-own-group] gTried ==> gTryLimiter == scopedRemedy.Remedy.Name && gTryGroup == groupID && gTryGrouping == grouping
-//@   ensures[ungrouped-without-allocation] gTried && remedyConfig.GroupQuotaAllocation == nil ==> gTryGroup == limit.UngroupedLimit && gTryGrouping == limit.Ungrouped && gTryRatio == 1.0
-//@   ensures[configured-window] gTried ==> gTryAllowed == remedyConfig.AllowedRequestCount && gTryWindow == remedyConfig.WindowSizeInSeconds * 1000000000
-//@   ensures[share-of-own-group] gTried && remedyConfig.GroupQuotaAllocation != nil ==> (exists(j, 0, len(remedyConfig.GroupQuotaAllocation.Groups), groupMatches(remedyConfig, onRequest, j) && gTryRatio == remedyConfig.GroupQuotaAllocation.Groups[j].AllocationPercentage / 100.0)) || (forall(j, 0, len(remedyConfig.GroupQuotaAllocation.Groups), !groupMatches(remedyConfig, onRequest, j)) && (remedyConfig.GroupQuotaAllocation.DefaultBehavior() == sharedConfig.DefaultQuotaGroupBehaviorUseDefaultAllocation ==> gTryRatio == remedyConfig.GroupQuotaAllocation.DefaultAllocationPercentage / 100.0))
+//@   ensures[ungrouped-without-allocation] gTried && scopedRemedy.Remedy.Config.StrategyBasedThrottling.GroupQuotaAllocation == nil ==> gTryGroup == limit.UngroupedLimit && gTryGrouping == limit.Ungrouped && gTryRatio == 1.0
+//@   ensures[configured-window] gTried ==> gTryAllowed == scopedRemedy.Remedy.Config.StrategyBasedThrottling.AllowedRequestCount && gTryWindow == scopedRemedy.Remedy.Config.StrategyBasedThrottling.WindowSizeInSeconds * 1000000000
+//@   ensures[share-of-own-group] gTried && scopedRemedy.Remedy.Config.StrategyBasedThrottling.GroupQuotaAllocation != nil ==> (exists(j, 0, len(scopedRemedy.Remedy.Config.StrategyBasedThrottling.GroupQuotaAllocation.Groups), groupMatches(scopedRemedy.Remedy.Config.StrategyBasedThrottling, onRequest, j) && gTryRatio == scopedRemedy.Remedy.Config.StrategyBasedThrottling.GroupQuotaAllocation.Groups[j].AllocationPercentage / 100.0)) || (forall(j, 0, len(scopedRemedy.Remedy.Config.StrategyBasedThrottling.GroupQuotaAllocation.Groups), !groupMatches(scopedRemedy.Remedy.Config.StrategyBasedThrottling, onRequest, j)) && (scopedRemedy.Remedy.Config.StrategyBasedThrottling.GroupQuotaAllocation.DefaultBehavior() == sharedConfig.DefaultQuotaGroupBehaviorUseDefaultAllocation ==> gTryRatio == scopedRemedy.Remedy.Config.StrategyBasedThrottling.GroupQuotaAllocation.DefaultAllocationPercentage / 100.0))
 
 // ---------------------------------------------------------------- C10: the queue remedy uses the queue of its own remedy and strategy and obeys its verdict
 // ghost record of the Enqueue made on behalf of this request (the queue itself is proved in utils/queue)
@@ -242,9 +242,9 @@ package remedies
 //@   modifies mapof(plugin.queues), gEnqDone, gEnqQueue, gEnqReq, gEnqTTL, gEnqSize, gEnqProceed, now
 //@   on entry do gEnqDone = false
 //@   ensures[obeys-the-queue] result1 == nil ==> gEnqDone && (gEnqProceed <==> typeis(result0, *actions.NoOpAction)) && (!gEnqProceed <==> typeis(result0, *actions.EarlyResponseAction))
-//@   ensures[rejected-with-the-configured-status] result1 == nil && typeis(result0, *actions.EarlyResponseAction) ==> result0.(*actions.EarlyResponseAction).Status == remedyConfig.ResponseStatusCode
-//@   ensures[own-queue] gEnqDone ==> in(queue.QueueKey{scopedRemedy.Remedy.Name, queue.Strategy{remedyConfig.AllowedRequestCount, remedyConfig.WindowSizeInSeconds * 1000000000}}, plugin.queues) && gEnqQueue == plugin.queues[queue.QueueKey{scopedRemedy.Remedy.Name, queue.Strategy{remedyConfig.AllowedRequestCount, remedyConfig.WindowSizeInSeconds * 1000000000}}]
+//@   ensures[rejected-with-the-configured-status] result1 == nil && typeis(result0, *actions.EarlyResponseAction) ==> result0.(*actions.EarlyResponseAction).Status == scopedRemedy.Remedy.Config.StrategyBasedQueue.ResponseStatusCode
+//@   ensures[own-queue] gEnqDone ==> in(queue.QueueKey{scopedRemedy.Remedy.Name, queue.Strategy{scopedRemedy.Remedy.Config.StrategyBasedQueue.AllowedRequestCount, scopedRemedy.Remedy.Config.StrategyBasedQueue.WindowSizeInSeconds * 1000000000}}, plugin.queues) && gEnqQueue == plugin.queues[queue.QueueKey{scopedRemedy.Remedy.Name, queue.Strategy{scopedRemedy.Remedy.Config.StrategyBasedQueue.AllowedRequestCount, scopedRemedy.Remedy.Config.StrategyBasedQueue.WindowSizeInSeconds * 1000000000}}]
 //@   ensures[queue-kept] seq: forall(k, queue.QueueKey, old(in(k, plugin.queues)) ==> in(k, plugin.queues) && plugin.queues[k] == old(plugin.queues[k]))
-//@   ensures[other-queues-untouched] seq: forall(k, queue.QueueKey, k != queue.QueueKey{scopedRemedy.Remedy.Name, queue.Strategy{remedyConfig.AllowedRequestCount, remedyConfig.WindowSizeInSeconds * 1000000000}} ==> (in(k, plugin.queues) <==> old(in(k, plugin.queues))))
-//@   ensures[configured-ttl-and-size] gEnqDone && remedyConfig.TTLSeconds >= 0.0 ==> real(gEnqTTL) <= 1000000000.0 * real(remedyConfig.TTLSeconds) && real(gEnqTTL) > 1000000000.0 * (real(remedyConfig.TTLSeconds) - 1.0) && gEnqSize == remedyConfig.QueueSize
+//@   ensures[other-queues-untouched] seq: forall(k, queue.QueueKey, k != queue.QueueKey{scopedRemedy.Remedy.Name, queue.Strategy{scopedRemedy.Remedy.Config.StrategyBasedQueue.AllowedRequestCount, scopedRemedy.Remedy.Config.StrategyBasedQueue.WindowSizeInSeconds * 1000000000}} ==> (in(k, plugin.queues) <==> old(in(k, plugin.queues))))
+//@   ensures[configured-ttl-and-size] gEnqDone && scopedRemedy.Remedy.Config.StrategyBasedQueue.TTLSeconds >= 0.0 ==> real(gEnqTTL) <= 1000000000.0 * real(scopedRemedy.Remedy.Config.StrategyBasedQueue.TTLSeconds) && real(gEnqTTL) > 1000000000.0 * (real(scopedRemedy.Remedy.Config.StrategyBasedQueue.TTLSeconds) - 1.0) && gEnqSize == scopedRemedy.Remedy.Config.StrategyBasedQueue.QueueSize
 //@   ensures[own-request-and-priority] gEnqDone ==> gEnqReq != nil && gEnqReq.ID == onRequest.ID && gEnqReq.priority == priority
